@@ -232,6 +232,8 @@ class Norm:
                 rb = range_bounds(args[1])
                 if rb is not None:
                     lo, hi = rb
+                    if hi is None and pkey(poly(lo)) == pkey({}):
+                        return x        # `s[..]` and `s[0..]` are s (C03 R-index rows for RangeFull / RangeFrom)
                     return ("sslice", x, canon(lo), canon(hi) if hi is not None else None)
             ck = conv_key(key)
             if ck is not None:
